@@ -23,7 +23,7 @@ var commonStub = []string{"Go map iteration order (seeded oracle at every rewrit
 func profC07(t *tape.Tape) model.Profile {
 	p := model.Profile{
 		PrefixTraps: t.Chance(1, 3),
-		Mods: [2]int{2, 5}, Subs: [2]int{0, 3}, Typedefs: [2]int{0, 2}, Identities: [2]int{0, 1}, Groupings: [2]int{0, 3},
+		Mods:        [2]int{2, 5}, Subs: [2]int{0, 3}, Typedefs: [2]int{0, 2}, Identities: [2]int{0, 1}, Groupings: [2]int{0, 3},
 		TopNodes: [2]int{1, 4}, Augments: [2]int{1, 10}, Deviations: [2]int{0, 0}, Depth: 3,
 		Invalid: []string{model.InvAugMissing, model.InvAugLeaf, model.InvAugCollision, model.InvAugCollisionOwn}, InvalidPct: 8, MaxInvalid: 1,
 		OrderTraps: true, Extras: t.Chance(1, 2),
@@ -51,7 +51,7 @@ func augmentCount(s *model.Scenario) int {
 func profC06(t *tape.Tape) model.Profile {
 	p := model.Profile{
 		PrefixTraps: t.Chance(1, 3),
-		Mods: [2]int{1, 4}, Subs: [2]int{0, 2}, Typedefs: [2]int{1, 3}, Identities: [2]int{0, 2}, Groupings: [2]int{2, 5},
+		Mods:        [2]int{1, 4}, Subs: [2]int{0, 2}, Typedefs: [2]int{1, 3}, Identities: [2]int{0, 2}, Groupings: [2]int{2, 5},
 		TopNodes: [2]int{2, 5}, Augments: [2]int{0, 3}, Deviations: [2]int{0, 4}, DevMods: [2]int{1, 2}, Depth: 4,
 		Invalid: []string{model.InvUnknownGrouping, model.InvUsesCycle}, InvalidPct: 4, MaxInvalid: 1,
 		UsesHeavy: true, Extras: t.Chance(1, 3),
@@ -88,9 +88,9 @@ func usesCount(s *model.Scenario) (uses int, reused bool) {
 func profC08(t *tape.Tape) model.Profile {
 	p := model.Profile{
 		PrefixTraps: t.Chance(1, 3),
-		Mods: [2]int{1, 3}, Subs: [2]int{0, 1}, Typedefs: [2]int{0, 2}, Identities: [2]int{0, 1}, Groupings: [2]int{0, 2},
+		Mods:        [2]int{1, 3}, Subs: [2]int{0, 1}, Typedefs: [2]int{0, 2}, Identities: [2]int{0, 1}, Groupings: [2]int{0, 2},
 		TopNodes: [2]int{2, 5}, Augments: [2]int{0, 2}, Deviations: [2]int{1, 6}, DevMods: [2]int{1, 3}, Depth: 3,
-		Invalid: []string{model.InvDevMissing, model.InvDevAddDefault, model.InvDevDelDefault, model.InvDevDelOther, model.InvDevMinNonList, model.InvDevDelMin, model.InvDevBadType, model.InvDevUnknownKind},
+		Invalid:    []string{model.InvDevMissing, model.InvDevAddDefault, model.InvDevDelDefault, model.InvDevDelOther, model.InvDevMinNonList, model.InvDevDelMin, model.InvDevBadType, model.InvDevUnknownKind},
 		InvalidPct: 10, MaxInvalid: 1, OrderTraps: true, Extras: t.Chance(1, 3),
 	}
 	if t.Chance(3, 5) {
@@ -207,7 +207,7 @@ func c08Frame(c *refCase, ms *yang.Modules, cp *model.Compiled, o *core.Outcome,
 func profC11(t *tape.Tape) model.Profile {
 	p := model.Profile{
 		PrefixTraps: t.Chance(1, 3),
-		Mods: [2]int{1, 5}, Subs: [2]int{0, 3}, Typedefs: [2]int{0, 2}, Identities: [2]int{1, 6}, Groupings: [2]int{0, 1},
+		Mods:        [2]int{1, 5}, Subs: [2]int{0, 3}, Typedefs: [2]int{0, 2}, Identities: [2]int{1, 6}, Groupings: [2]int{0, 1},
 		TopNodes: [2]int{1, 3}, Augments: [2]int{0, 1}, Deviations: [2]int{0, 0}, Depth: 2,
 		Invalid: []string{model.InvIdentityCycle, model.InvUndefinedBase}, InvalidPct: 25, MaxInvalid: 1, OrderTraps: true,
 	}
@@ -286,11 +286,13 @@ func c11Extra(c *refCase, ms *yang.Modules, cp *model.Compiled, o *core.Outcome,
 			walkType(u, where, depth+1)
 		}
 	}
+	vis := map[*yang.Entry]bool{}
 	var walk func(e *yang.Entry, d int)
 	walk = func(e *yang.Entry, d int) {
-		if e == nil || d > 100 {
+		if e == nil || d > 100 || vis[e] {
 			return
 		}
+		vis[e] = true
 		walkType(e.Type, e.Path(), 0)
 		for _, ch := range e.Dir {
 			walk(ch, d+1)
@@ -324,7 +326,7 @@ func init() {
 	profiles["c06"], profiles["c07"], profiles["c08"], profiles["c11"] = profC06, profC07, profC08, profC11
 	core.Register(&refDriver{
 		id: "C07", quick: 10_000, thor: 300_000, profile: profC07,
-		histories: []int{5, 1, 2},
+		histories:  []int{5, 1, 2},
 		nonTrivial: func(s *model.Scenario, cp *model.Compiled) bool { return cp.AugApplied > 0 },
 		info: core.Info{
 			Rule: "A case is a generated module set with 1-10 top-level augments (chains whose target is created by another augment, targets produced by uses, by a submodule, inside choice / explicit case / rpc input and output (declared and undeclared) / notification / list; augments written in submodules; uses inside augments; declaration order shuffled; optionally one invalid augment: missing target, leaf or leaf-list target, child-name collision between two augmenting modules or with an existing child) and 4-7 executions (load-order permutation x map-order schedule) under a batch, re-Process or incremental-load history, optionally with the textual order of the augment statements re-permuted. " +
@@ -339,7 +341,7 @@ func init() {
 	})
 	core.Register(&refDriver{
 		id: "C06", quick: 5_000, thor: 150_000, profile: profC06, invariants: true,
-		histories: []int{3, 2, 2},
+		histories:  []int{3, 2, 2},
 		nonTrivial: func(s *model.Scenario, cp *model.Compiled) bool { _, reused := usesCount(s); return reused },
 		info: core.Info{
 			Rule: "A case is a grouping-heavy module set (2-5 groupings per module, nested groupings and typedefs local to a grouping, groupings in submodules and imported modules, 2+ uses of the same grouping, actions/notifications/choices inside groupings), then 0-3 augments and 0-4 deviations aimed at single instances, under 4-7 executions (load order x map order) and a batch / re-Process / incremental-load history. " +
@@ -353,7 +355,7 @@ func init() {
 	})
 	core.Register(&refDriver{
 		id: "C08", quick: 12_000, thor: 400_000, profile: profC08, extra: c08Frame,
-		histories: []int{5, 1, 1},
+		histories:  []int{5, 1, 1},
 		nonTrivial: func(s *model.Scenario, cp *model.Compiled) bool { return deviationCount(s) > 0 },
 		info: core.Info{
 			Rule: "A case is a base module set plus 1-3 deviating modules with 1-6 deviations of 1-3 deviate statements each (not-supported, add, replace, delete over config / default / mandatory / min-elements / max-elements / units / type; targets anywhere incl. grafted nodes, grouping instances, implicit-case members, lists, leaf-lists, choices; RFC-valid sequences such as delete-then-add; optionally one un-appliable deviation of the classes the property lists), options default / IgnoreDeviateNotSupported, under 4-7 executions (load order x map order). " +
@@ -370,7 +372,10 @@ func init() {
 	core.Register(&refDriver{
 		id: "C11", quick: 15_000, thor: 500_000, profile: profC11, extra: c11Extra,
 		histories: []int{3, 2, 2},
-		nonTrivial: func(s *model.Scenario, cp *model.Compiled) bool { ids, edges := identityStats(s); return ids >= 3 && edges >= 1 },
+		nonTrivial: func(s *model.Scenario, cp *model.Compiled) bool {
+			ids, edges := identityStats(s)
+			return ids >= 3 && edges >= 1
+		},
 		info: core.Info{
 			Rule: "A case is an identity graph of 1-30 identities over 1-5 modules and 0-3 submodules (diamonds, multiple bases, cross-module edges through import prefixes, equal names in different modules, identityref leaves and typedefs; optionally an undefined base or a derivation cycle of length 1-3) under 4-7 executions (load order x map order) and a batch / re-Process / incremental-load history. " +
 				"Valid graph: every identity's value list equals the transitive closure of the base graph computed from the abstract scenario (each once, never itself), the sequence is identical in every execution and after re-Process / incremental load, and every identityref's base is one of the identity objects listed by the modules. Undefined base or cycle: errors in every execution, within the tick budget. Non-trivial: >= 3 identities and >= 1 base edge. Distinct = distinct case descriptions.",
